@@ -14,6 +14,7 @@
 (*              normals; triangle count = vertex count = s without         *)
 (*        "sr"  s records with stored normals; s records with zero normals *)
 (*        "sb"  s records through the record level API                     *)
+(*        "sz"  sizes only (size law, triangle count) for large s          *)
 (*   OBJ  "wr"  a list of meshes in which one or two meshes are BIG:       *)
 (*              shape "v"  s vertices, few faces  (v / vt / vn lines)      *)
 (*              shape "f"  few vertices, s faces in one material range     *)
@@ -28,10 +29,11 @@
 (*              shape "g": s groups of one face each                       *)
 (* Values (coordinates, index patterns) are drawn by the harness from the  *)
 (* seed the check adds; this module fixes only the sizes.  Every profile   *)
-(* has a weight w (number of vertices + faces, what judging it costs) and  *)
-(* a rotation class rot: the quick tier runs every profile with w <= a     *)
-(* bound and, of the heavier ones, the class of the run's seed; the        *)
-(* thorough tier runs all.                                                 *)
+(* has a weight w (number of vertices + faces, what judging it costs), a   *)
+(* flag core and a rotation class rot: the quick tier runs every core      *)
+(* profile (light ones, and the leading ones of the exact multiples up to  *)
+(* CoreMax) and, of the others, the class of the run's seed; the thorough  *)
+(* tier runs all.                                                          *)
 (*                                                                         *)
 (* Checked on the specification itself (ASSUME / invariant Covered): every *)
 (* threshold within MaxSize occurs exactly and with both neighbours; every *)
@@ -45,6 +47,10 @@ CONSTANTS Family,        \* "stl" | "obj"
           Mults,         \* set of multiples
           MaxSize,       \* largest size emitted
           MaxCount,      \* OBJ: largest number of meshes / material ranges / groups
+          SzThresholds,  \* STL: large round numbers for the sizes-only cases
+          SzMults,
+          CoreW,         \* profiles up to this weight are "core": the quick tier runs them for every seed
+          CoreMax,       \* OBJ: so are the leading profiles of exact multiples up to this size
           Rot            \* number of rotation classes
 
 VARIABLE c
@@ -61,11 +67,21 @@ RotOf(s) == ((Ix(s) \div 3) + (Ix(s) % 3)) % Rot
 StlSeeded(n, nv, nr) == [seed |-> 0, ntris |-> n, nverts |-> nv, nrm |-> nr, nexp |-> 0, edge |-> 0]
 StlCase(k, n, nv, nr) ==
     [k |-> k, tag |-> "sized", enc |-> "f32", q |-> 1, qn |-> IF k = "sw" THEN 4 ELSE 60,
-     seeded |-> StlSeeded(n, nv, nr), w |-> n, rot |-> RotOf(n)]
+     seeded |-> StlSeeded(n, nv, nr), w |-> n, rot |-> RotOf(n), core |-> n <= CoreW]
+\* sizes only ("sz"): counts around the multiples of LARGE round numbers, where a 16 bit counter or
+\* a block buffer would give in; judged on the size law and the triangle count alone, so cheap
+\* enough for every run
+SzExact == {m * t : m \in SzMults, t \in SzThresholds}
+SzSizes == {e + d : e \in SzExact, d \in Deltas}
+SzCase(dir, n) ==
+    [k |-> "sz", dir |-> dir, tag |-> "sized", enc |-> "f32", q |-> 1, qn |-> IF dir = "w" THEN 4 ELSE 60,
+     seeded |-> StlSeeded(n, IF dir = "w" THEN -1 ELSE 0, IF dir = "w" THEN 2 - (n % 2) ELSE 1),
+     w |-> 1, rot |-> 0, core |-> TRUE]
 StlProfiles ==
     UNION {{StlCase("sw", n, -1, 1), StlCase("sw", n, n, 2),
             StlCase("sr", n, 0, 1), StlCase("sr", n, 0, 2),
             StlCase("sb", n, 0, 1)} : n \in Sizes}
+    \cup {SzCase(dir, n) : dir \in {"w", "r"}, n \in SzSizes}
 
 (* ------------------------------- OBJ ----------------------------------- *)
 \* attribute sets: 0 none, 1 uv, 2 normals, 3 both
@@ -79,35 +95,48 @@ Big(shape, s, a) ==
       [] OTHER -> Mesh(s, s, a, 2)
 Small(a) == Mesh(Few, 2, a, 1)
 Places == {"first", "last", "middle", "twice"}
+\* the mesh AFTER a big one has texture coordinates and normals: whatever pool the big mesh wrote to,
+\* the next mesh's faces refer to it (a shifted or short pool is then seen); the mesh BEFORE varies
 ObjList(place, big, a) ==
-    CASE place = "first" -> <<big, Small((a + 1) % 4)>>
+    CASE place = "first" -> <<big, Small(3)>>
       [] place = "last" -> <<Small((a + 2) % 4), big>>
-      [] place = "middle" -> <<Small((a + 3) % 4), big, Small((a + 1) % 4)>>
-      [] OTHER -> <<big, big, Small(3 - a)>>
+      [] place = "middle" -> <<Small((a + 3) % 4), big, Small(3)>>
+      [] OTHER -> <<big, big, Small(3)>>
 Weight(ms) == FoldLeft(LAMBDA acc, m : acc + m.nv + m.nt, 0, ms)
 ShapeNo(sh) == CASE sh = "v" -> 0 [] sh = "f" -> 1 [] sh = "vf" -> 2 [] sh = "m" -> 3 [] sh = "n" -> 4 [] OTHER -> 5
 PlaceNo(p) == CASE p = "first" -> 0 [] p = "last" -> 1 [] p = "middle" -> 2 [] OTHER -> 3
-WrCase(s, sh, p) ==
-    LET a == (Ix(s) + ShapeNo(sh) + PlaceNo(p)) % 4
-        ms == ObjList(p, Big(sh, s, a), a) IN
+\* a: the attribute set of the big mesh
+WrCase(s, sh, p, a) ==
+    LET ms == ObjList(p, Big(sh, s, a), a)
+        w == Weight(ms) IN
     [k |-> "wr", tag |-> "sized", enc |-> "f32", q |-> 1,
      seeded |-> [seed |-> 0, nmesh |-> Len(ms), maxtris |-> 0, sizes |-> ms],
-     place |-> p, shape |-> sh, size |-> s,
-     w |-> Weight(ms), rot |-> (RotOf(s) + ShapeNo(sh) + PlaceNo(p)) % Rot]
+     place |-> p, shape |-> sh, size |-> s, attrs |-> a,
+     w |-> w, rot |-> (RotOf(s) + ShapeNo(sh) + PlaceNo(p) + a) % Rot,
+     core |-> w <= CoreW \/ (s \in Exact /\ s <= CoreMax /\ sh \in {"v", "f"} /\ p = "first")]
 \* counts of other things: material ranges of one mesh, meshes of a list (sizes up to MaxCount)
 Tiny(a) == Mesh(3, 1, a, 0)
 CountCase(s, sh) ==
     LET a == Ix(s) % 4
-        ms == IF sh = "m" THEN <<Mesh(Few + 1, s, a, s), Small((a + 1) % 4)>>
+        ms == IF sh = "m" THEN <<Mesh(Few + 1, s, a, s), Small(3)>>
               ELSE [i \in 1..s |-> Tiny((a + i) % 4)] IN
     [k |-> "wr", tag |-> "sized", enc |-> "f32", q |-> 1,
      seeded |-> [seed |-> 0, nmesh |-> Len(ms), maxtris |-> 0, sizes |-> ms],
-     place |-> "first", shape |-> sh, size |-> s,
-     w |-> Weight(ms), rot |-> (RotOf(s) + ShapeNo(sh)) % Rot]
-\* an exact multiple is tried in every place, its two neighbours in the middle of three (a mesh
-\* before and a mesh after the big one)
+     place |-> "first", shape |-> sh, size |-> s, attrs |-> a,
+     w |-> Weight(ms), rot |-> (RotOf(s) + ShapeNo(sh)) % Rot, core |-> Weight(ms) <= CoreW]
+\* An exact multiple is tried in every place, its two neighbours in the middle of three (a mesh
+\* before and a mesh after the big one).  Where the big mesh is followed by another one ("first",
+\* and "middle" for the neighbours) the attribute set is not left to rotation: a big "v" mesh has
+\* texture coordinates AND normals (the writer has one loop per pool: v, vt, vn - each gets the
+\* size), a big "f" mesh comes in all four attribute sets (the writer has one face loop per syntax:
+\* v, v/vt, v//vn, v/vt/vn).  Elsewhere the attribute set rotates with size, shape and place.
 PlacesFor(s) == IF s \in Exact THEN Places ELSE {"middle"}
-WrProfiles == UNION {{WrCase(s, sh, p) : sh \in {"v", "f", "vf"}, p \in PlacesFor(s)} : s \in Sizes}
+Lead(s, p) == p = "first" \/ (p = "middle" /\ s \notin Exact)
+AttrsFor(s, sh, p) ==
+    IF sh = "v" /\ Lead(s, p) THEN {3}
+    ELSE IF sh = "f" /\ Lead(s, p) THEN 0..3
+    ELSE {(Ix(s) + ShapeNo(sh) + PlaceNo(p)) % 4}
+WrProfiles == UNION {UNION {{WrCase(s, sh, p, a) : a \in AttrsFor(s, sh, p)} : sh \in {"v", "f", "vf"}, p \in PlacesFor(s)} : s \in Sizes}
               \cup {CountCase(s, sh) : s \in {x \in Sizes : x <= MaxCount}, sh \in {"m", "n"}}
 
 \* texts: a group is [nv, nf, syn]; syn 0 "v", 1 "v/vt", 2 "v//vn", 3 "v/vt/vn"
@@ -116,18 +145,18 @@ BigGroup(shape, s, syn) == IF shape = "v" THEN Group(s, s - 2, syn) ELSE Group(F
 LdCase(s, sh, p) ==
     LET syn == (Ix(s) + ShapeNo(sh) + PlaceNo(p)) % 4
         big == BigGroup(sh, s, syn)
-        small == Group(Few, 2, (syn + 1) % 4)
-        gs == CASE p = "first" -> <<big, small>>
-                [] p = "last" -> <<small, big>>
+        gs == CASE p = "first" -> <<big, Group(Few, 2, 3)>>      \* the group after a big one uses all three pools
+                [] p = "last" -> <<Group(Few, 2, (syn + 1) % 4), big>>
                 [] OTHER -> <<big, big>> IN
     [k |-> "ld", tag |-> "sized", enc |-> "lat", q |-> 1024,
-     text |-> [seed |-> 0, groups |-> gs], place |-> p, shape |-> sh, size |-> s,
-     w |-> 2 * s, rot |-> (RotOf(s) + ShapeNo(sh) + PlaceNo(p)) % Rot]
+     text |-> [seed |-> 0, groups |-> gs], place |-> p, shape |-> sh, size |-> s, attrs |-> syn,
+     w |-> 2 * s, rot |-> (RotOf(s) + ShapeNo(sh) + PlaceNo(p)) % Rot,
+     core |-> 2 * s <= CoreW \/ (s \in Exact /\ s <= CoreMax /\ p = "first")]
 GroupsCase(s) ==
     [k |-> "ld", tag |-> "sized", enc |-> "lat", q |-> 1024,
      text |-> [seed |-> 0, groups |-> [i \in 1..s |-> Group(3, 1, (Ix(s) + i) % 4)]],
-     place |-> "first", shape |-> "g", size |-> s,
-     w |-> 4 * s, rot |-> (RotOf(s) + 5) % Rot]
+     place |-> "first", shape |-> "g", size |-> s, attrs |-> 0,
+     w |-> 4 * s, rot |-> (RotOf(s) + 5) % Rot, core |-> 4 * s <= CoreW]
 LdPlacesFor(s) == IF s \in Exact THEN {"first", "last", "twice"} ELSE {"first"}
 LdProfiles == UNION {{LdCase(s, sh, p) : sh \in {"v", "f"}, p \in LdPlacesFor(s)} : s \in {x \in Sizes : x >= 3}}
               \cup {GroupsCase(s) : s \in {x \in Sizes : x <= MaxCount}}
@@ -145,6 +174,15 @@ ASSUME Family = "obj" =>
             /\ \E p \in WrProfiles : p.size = e /\ p.shape = "v" /\ p.seeded.sizes[1].nv = e /\ Len(p.seeded.sizes) > 1
             /\ \E p \in WrProfiles : p.size = e /\ p.shape = "v" /\ p.seeded.sizes[Len(p.seeded.sizes)].nv = e
             /\ \E p \in WrProfiles : p.size = e /\ p.shape = "f" /\ p.seeded.sizes[1].nt = e
+\* the quick tier's core holds, for every exact multiple up to CoreMax: a big mesh that feeds the three
+\* pools and is followed by another mesh; a big mesh of each face syntax; a big group of a text
+ASSUME Family = "obj" =>
+         \A e \in {x \in Exact : x <= CoreMax} :
+            /\ \E p \in WrProfiles : /\ p.core /\ p.size = e /\ p.shape = "v" /\ Len(p.seeded.sizes) > 1
+                                      /\ p.seeded.sizes[1].nv = e /\ p.seeded.sizes[1].uv /\ p.seeded.sizes[1].nrm
+            /\ \A a \in 0..3 : \E p \in WrProfiles : /\ p.core /\ p.size = e /\ p.shape = "f" /\ p.attrs = a
+                                                      /\ p.seeded.sizes[1].nt = e
+            /\ \E p \in LdProfiles : p.core /\ p.size = e /\ p.shape = "v" /\ p.text.groups[1].nv = e /\ Len(p.text.groups) > 1
 ASSUME Family = "stl" =>
          \A e \in Exact : \A k \in {"sw", "sr", "sb"} : \E p \in StlProfiles : p.k = k /\ p.seeded.ntris = e
 \* every profile is well formed: a mesh with faces has vertices, weights are what they say
